@@ -452,6 +452,29 @@ func (cx *Ctx) exactNameLookupRule(r *Report, mod string, prefixes []string, rul
 		if ns != 1 {
 			continue
 		}
+		// a lookup hands back the record (a type of the module) or says whether there is one;
+		// a function that merely takes a name along with other inputs (a trade routine that is
+		// given the standard denom) is not a lookup by that name
+		isLookup := false
+		if res := G.Signature.Results(); res.Len() > 0 {
+			t0 := res.At(0).Type()
+			if nt := namedOf(t0); nt != nil && nt.Obj().Pkg() != nil && isIrismodPath(nt.Obj().Pkg().Path()) {
+				isLookup = true
+			}
+			if bt, ok := t0.Underlying().(*types.Basic); ok && (bt.Kind() == types.Bool || bt.Kind() == types.String) {
+				isLookup = true
+			}
+			if _, ok := t0.Underlying().(*types.Slice); ok {
+				isLookup = true
+			}
+			// (or only says whether the named object is acceptable: ValidatePool(name) error)
+			if res.Len() == 1 && isErrorType(t0) {
+				isLookup = true
+			}
+		}
+		if !isLookup {
+			continue
+		}
 		// store reads under the prefixes in G and its static callees (depth ≤ 3)
 		type site struct {
 			ci    ssa.CallInstruction
